@@ -82,6 +82,9 @@ func cmdRun(args []string) {
 	fmt.Printf("loaded in %.1fs\n", time.Since(t0).Seconds())
 	cfg := &interp.Config{SolverTimeoutMs: *timeout, MaxSteps: 20_000_000, ConcCap: 64, Workers: *workers,
 		Params: params, MaxPaths: *maxPaths, Sched: *sched, Preempt: *preempt, Race: *race, Verbose: *verbose, Known: map[string]bool{}}
+	if m := params["maxsteps_m"]; m > 0 {
+		cfg.MaxSteps = int64(m) * 1_000_000
+	}
 	pkgPath := interp.RepoModule
 	if *pkg != "" && *pkg != "." {
 		pkgPath += "/" + *pkg
